@@ -23,7 +23,13 @@ NoBody(code) == code \in {204, 304}
 StatusLetter(code) == [l |-> "status", code |-> code]
 Plain(l) == [l |-> l, code |-> 200]
 
-NetLetters  == {"badstatus", "badheader", "hugeheader", "closebefore", "closeduring", "refused", "timeout"}
+\* TLS handshake level (TLS guns: http with ssl, http2, http2/scenario; the target DOES speak HTTP/2): a fatal alert from
+\* the peer (internal_error), the peer hanging up after the ClientHello, a reset after the peer's certificate flight,
+\* a peer that never answers the ClientHello.  The first three hit a SHARE of the handshakes of a run (every response
+\* closes its connection, so handshakes happen throughout the run); the other requests of the run get a plain 200.
+TlsShare    == {"tlsalert", "tlsclose", "tlsreset"}
+TlsLetters  == TlsShare \cup {"tlstimeout"}
+NetLetters  == {"badstatus", "badheader", "hugeheader", "closebefore", "closeduring", "refused", "timeout"} \cup TlsLetters
 BodyLetters == {"trunc", "badchunk"}
 OddLetters  == {"early", "empty", "big", "notjson", "jsonarr", "nothtml", "shorthdr", "nohdr"}
 \* "hv": a well-formed 200 whose X-Tok header value has exactly `code` bytes (0 = empty / absent)
@@ -107,7 +113,7 @@ GrpcOutcome(x) == IF GrpcOK(x) THEN Smp(200, FALSE, FALSE) ELSE Smp(GE400, FALSE
 GrpcScenOutcome(x) == IF GrpcOK(x) THEN <<Smp(200, FALSE, FALSE), Smp(200, FALSE, FALSE)>> ELSE <<Smp(GE400, FALSE, FALSE)>>
 
 Outcome(gun, x, p) ==
-    CASE gun \in {"http", "http2", "connect"}       -> <<HttpOutcome(x)>>
+    CASE gun \in {"http", "https", "http2", "connect"} -> <<HttpOutcome(x)>>
       [] gun \in {"http/scenario", "http2/scenario"} -> HttpScenOutcome(x, p)
       [] gun = "grpc"                                -> <<GrpcOutcome(x)>>
       [] gun = "grpc/scenario"                       -> GrpcScenOutcome(x)
@@ -148,7 +154,9 @@ Shot(i) == /\ pc[i] = "shoot" /\ poolErr = "none"
 \* negative control: response-derived data used unchecked - Shoot panics, instance.Run recovers it into
 \* "shoot panic", the pool fails and every instance is cancelled
 ShotPanic(i) == /\ RespCanPanic /\ pc[i] = "shoot" /\ poolErr = "none"
-                /\ run.gun = "http/scenario" /\ Has(run.posts, "header_substr") /\ HdrTok(cur[i]) = "short"
+                /\ \/ run.gun = "http/scenario" /\ Has(run.posts, "header_substr") /\ HdrTok(cur[i]) = "short"
+                   \* or: every TLS alert of the peer mistaken for the documented "target has no HTTP/2"
+                   \/ run.gun \in {"http2", "http2/scenario"} /\ cur[i].l \in TlsLetters
                 /\ poolErr' = "panic"
                 /\ due' = due + Len(Outcome(run.gun, cur[i], run.posts))
                 /\ pc' = [j \in 1..NInst |-> "done"]
